@@ -443,8 +443,12 @@ def work_items(ctx):
         items += [('xcheck', pr, 1, 'all') for pr in XCHECK[:2]]
     else:
         items += [('pair', pr, None, 'visible') for pr in pairs]
-        items += [('loaded-first', (p_['name'], b), None, 'visible') for p_ in LOADED_FIRST for b in LOADED_FIRST_WRITERS[coll_of(p_['name'])]]
-        items += [('write-between', (p_['name'], b), None, 'visible') for p_ in WRITE_BETWEEN for b in wb_writers(p_['name'], False)]
+        # the full products at preemption bound 2, the quick tier's selection under all interleavings
+        lq, wq = set(LOADED_FIRST_QUICK), set(WRITE_BETWEEN_QUICK)
+        items += [('loaded-first', (p_['name'], b), None if p_['name'] in lq else 2, 'visible')
+                  for p_ in LOADED_FIRST for b in LOADED_FIRST_WRITERS[coll_of(p_['name'])]]
+        items += [('write-between', (p_['name'], b), None if (p_['name'] in wq and b in wb_writers(p_['name'], True)) else 2, 'visible')
+                  for p_ in WRITE_BETWEEN for b in wb_writers(p_['name'], False)]
         items += [('triple', (a,) + ws, 2, 'visible') for a in TRIPLE_READERS for ws in itertools.combinations(TRIPLE_WRITERS, 2)]
         items += [('xcheck', pr, 2, 'all') for pr in XCHECK]
     return items
@@ -482,7 +486,8 @@ def run(ctx):
                    bounds=('reader x writer: preemption bound 2; loaded-first (%d of %d readers) and write-between (%d of %d readers) '
                            'x their relevant writers: preemption bound 1' % (len(LOADED_FIRST_QUICK), len(LOADED_FIRST), len(WRITE_BETWEEN_QUICK), len(WRITE_BETWEEN)))
                           if ctx.quick else
-                          'reader x writer: all interleavings (loaded-first / write-between families: x their relevant writers); '
+                          'reader x writer: all interleavings; loaded-first / write-between families x their relevant writers: every '
+                          'generated reader at preemption bound 2, the quick selection under all interleavings; '
                           'reader + 2 writers (%d x C(%d,2)): preemption bound 2' % (len(TRIPLE_READERS), len(TRIPLE_WRITERS)))
     ctx.cov['exhaustive'] = True
     ctx.assume('SQLite only (PostgreSQL/MySQL server behaviour is out of reach); the reader observes through the public API only')
